@@ -738,8 +738,8 @@ Definition parse_forwarded_uri (fixed_F10 : bool) (v : string) : option (string 
   | None => None
   | Some (path, rp) =>
     Some (GoUrl.escaped_path path rp,
-          if fixed_F10 then q                                       (* candidate fixes/C13-F10.diff: RawQuery as sent *)
-          else GoUrl.values_encode (fst (GoUrl.parse_query q)))     (* as it is: Query().Encode() — finding C13-F10 *)
+          if fixed_F10 then q                                       (* fix: f446e16 (fixes/C13-F10.diff): RawQuery as sent *)
+          else GoUrl.values_encode (fst (GoUrl.parse_query q)))     (* as pinned: Query().Encode() — finding C13-F10 *)
   end.
 
 Definition tp_carrier_host := "heimdall.internal".
